@@ -70,7 +70,20 @@ func runC01(r *ev.Run) {
 			r.Count("cases:large-index", 1)
 			r.Count("ops:add", int64(bulk))
 		}
+		var held *heldSearch
 		probe := func() {
+			// one long-lived search object per case, executed again and again while the index changes under it
+			if held == nil || rng.IntN(8) == 0 {
+				held = newHeldSearch(func() comet.VectorSearch { return idx.NewSearch() })
+				hq := vg.query()
+				held.step("WithQuery", func(s comet.VectorSearch) comet.VectorSearch { return s.WithQuery(cloneF32(hq)) })
+			} else {
+				heldSearchStep(rng, held, vg.query(), m.liveIDs(), len(m.live))
+			}
+			if !held.compare(rep, "flat") {
+				held = nil
+			}
+			r.Count("probes:held-search-object", 1)
 			nq := 2 + rng.IntN(3)
 			for qi := 0; qi < nq; qi++ {
 				q := vg.query()
